@@ -298,23 +298,22 @@ def high_low(cx):
         blocks = [st for st in fn.stmts(ast.If) if is_none_test(st.test, pname)]
         cx.need(len(blocks) == 1, 'gate.high_low: expected one `if %s is None` block' % pname)
         blk = blocks[0]
-        okd = fn.cfg.dominates(fn.cfg.assume[id(blk)][0], fn.cfg.assume[id(blk)][0])  # trivially true; shape below
+        from ..rules import summarise, Unsupported
         assigns = [s for s in ast.walk(blk) if isinstance(s, ast.Assign)
                    and isinstance(s.targets[0], ast.Name) and s.targets[0].id == pname]
-        vals = [sym.norm(a.value) for a in assigns]
-        want_range = sym.norm('[%s if di is None else di[%d] for di in %s.range()]' % (inf, idx, X))
-        want_inf = sym.norm(inf)
-        conv = sym.norm('np.array(%s)' % pname)  # transparent cast -> var
-        has_range = want_range in vals
-        has_inf = want_inf in vals
-        others = [sym.show(v) for v in vals if v not in (want_range, want_inf, conv, ('var', pname))]
-        # the range branch must be taken iff the data has a `range`
-        inner = [st for st in ast.walk(blk) if isinstance(st, ast.If) and st is not blk]
-        cond_ok = any(sym.norm(st.test) == sym.norm("hasattr(%s, 'range')" % X) for st in inner)
-        ok = has_range and has_inf and not others and cond_ok
+        try:
+            summ = summarise(blk.body).get(pname)
+        except Unsupported as e:
+            raise AnalysisError('gate.high_low: default block for %s has an unrecognised statement: %s' % (pname, e))
+        got_d = sym.norm(summ) if summ is not None else None
+        want_d = sym.norm("np.array([%s if di is None else di[%d] for di in %s.range()]) if hasattr(%s, 'range') else %s"
+                          % (inf, idx, X, X, inf))
+        ok = got_d == want_d
+        vals = [got_d]
+        cond_ok = ok
         fn.ob('GATEPRED', 'default %s threshold is each channel\'s range limit, no limit without a range' % pname,
-              ok, blk, detail='' if ok else 'default for %s: values %s, hasattr-test present: %s'
-              % (pname, [sym.show(v) for v in vals], cond_ok), key='default-' + pname)
+              ok, blk, detail='' if ok else 'default for %s is %s' % (pname, sym.show(got_d) if got_d else 'not assigned'),
+              key='default-' + pname)
         # explicit thresholds win: the block is entered only when the argument is None and dominates nothing else
         fn.ob('GATEPRED', 'explicit %s threshold is used as given' % pname,
               all(fn.in_body_of(a, blk, 'body') for a in assigns) and
